@@ -174,8 +174,8 @@ theorem adds_applyPoll (poll : Option Nat) (w : World) :
 /-- `sendRequest` adds exactly one action: the exchange, of the requested kind. -/
 theorem sendRequest_trace (k : ReqKind) (b : Request.Builder) (w : World) :
     ∃ req, req.kind = k ∧ (sendRequest k b w).2.trace = .http req (sendRequest k b w).1 :: w.trace := by
-  refine ⟨{ kind := k, source := b.params.source, sessionDraw := b.sessionId.map Der.beNat,
-             requestDraw := b.requestId.map Der.beNat,
+  refine ⟨{ kind := k, source := b.params.source, sessionDraw := b.sessionId.map guidOf,
+             requestDraw := b.requestId.map guidOf,
              nonceDraw := if w.cup.isSome then some w.nNonce else none, apps := wireApps b }, rfl, ?_⟩
   unfold sendRequest
   simp only [emit, popHttp_trace]
